@@ -60,6 +60,9 @@ func (r *Report) ok(rule, construct, pos, detail string) {
 }
 
 func (r *Report) bad(rule, construct, pos, detail string) {
+	if len(detail) > 1500 {
+		detail = detail[:1500] + " ... [truncated]"
+	}
 	r.add(Obligation{Rule: rule, Construct: construct, Status: "violated", Pos: pos, Detail: detail})
 }
 
